@@ -3,7 +3,9 @@
 package vpack
 
 import (
+	"crypto/sha256"
 	"encoding/binary"
+	"hash"
 )
 
 // Read-only accessors for the /verif simulation harness (build tag verif only; no call sites in
@@ -47,4 +49,44 @@ func verifAppendTable[K comparable](out []byte, t *lruTable[K], app func([]byte,
 	}
 	out = append(out, t.mru...)
 	return out
+}
+
+// VerifStateDigest is sha256 over the same canonical serialisation as VerifState, computed without
+// materialising it (the tables can be several hundred kilobytes).
+func (s *dynamicTableState) VerifStateDigest() [32]byte {
+	h := sha256.New()
+	verifHashTable(h, s.sndTable, func(h hash.Hash, k *addressValue) { h.Write(k[:]) })
+	verifHashTable(h, s.pkTable, func(h hash.Hash, k *pkSigPair) { h.Write(k.pk[:]); h.Write(k.sig[:]) })
+	verifHashTable(h, s.pk2Table, func(h hash.Hash, k *pkSigPair) { h.Write(k.pk[:]); h.Write(k.sig[:]) })
+	h.Write([]byte{byte(s.proposalWindow.size)})
+	for idx := 1; idx <= s.proposalWindow.size; idx++ {
+		physical := (s.proposalWindow.head + s.proposalWindow.size - idx) % proposalWindowSize
+		e := &s.proposalWindow.entries[physical]
+		h.Write([]byte{e.mask, e.operLen})
+		h.Write(e.dig[:])
+		h.Write(e.encdig[:])
+		h.Write(e.operEnc[:])
+		h.Write(e.oprop[:])
+	}
+	var b [8]byte
+	binary.BigEndian.PutUint64(b[:], s.lastRnd)
+	h.Write(b[:])
+	var out [32]byte
+	h.Sum(out[:0])
+	return out
+}
+
+func verifHashTable[K comparable](h hash.Hash, t *lruTable[K], w func(hash.Hash, *K)) {
+	if t == nil {
+		h.Write([]byte{0xff})
+		return
+	}
+	var b [4]byte
+	binary.BigEndian.PutUint32(b[:], uint32(t.numBuckets))
+	h.Write(b[:])
+	for i := range t.buckets {
+		w(h, &t.buckets[i].slots[0])
+		w(h, &t.buckets[i].slots[1])
+	}
+	h.Write(t.mru)
 }
